@@ -37,9 +37,9 @@ pub(super) fn decode_public_key<'a>(
     public_key: &'a [u8],
     algorithm: Algorithm,
 ) -> ProtoResult<Arc<dyn PublicKey + 'a>> {
-    // try to keep this and `Algorithm::is_supported` in sync
-    debug_assert!(algorithm.is_supported());
-
+    // Try to keep this and `Algorithm::is_supported` in sync. The algorithm number comes from the
+    // DNSKEY RDATA, i.e. from the network: an unsupported one is an error (last match arm), not a
+    // programming mistake.
     #[allow(deprecated)]
     match algorithm {
         Algorithm::ECDSAP256SHA256 | Algorithm::ECDSAP384SHA384 => Ok(Arc::new(
